@@ -361,13 +361,16 @@ def prop_cli(case, rec):
     if not lang:
         rec.skip('empty_non_markov_language')
         return
-    env = dict(os.environ, PYTHONUTF8='1', LC_ALL='C.UTF-8', PYTHONDONTWRITEBYTECODE='1', PYTHONWARNINGS='ignore')
+    from .. import cli
+    env = cli.env_for(cli.DEFAULT)
+    # a named session (--session) must not make the walk depend on anything but the ruleset: same words in every process
+    sname = case.get('session_name')
+    sflags = (['--session' if case.get('long_options') else '-s', sname] if sname else [])
     outs = []
-    for hs in (1, 77):
+    for hs in (1, 77, None):
       try:
-        p = subprocess.run([sys.executable, os.path.join(_CLI, 'pcfg_guesser.py'), '-r', 'T', '-m', 'random_walk', '-n', str(n)] +
-                           flags, stdin=subprocess.DEVNULL, capture_output=True,
-                           env=dict(env, PYTHONHASHSEED=str(hs)), cwd=_CLI, timeout=120)
+        p = cli.run(_CLI, 'pcfg_guesser.py', ['-r', 'T', '-m', 'random_walk', '-n', str(n)] + flags + sflags,
+                    dict(cli.DEFAULT, hashseed=hs, cwd=case.get('cwd', 'tool')))
       except subprocess.TimeoutExpired:
         rec.skip('cli_timeout_inconclusive')
         return
@@ -375,11 +378,12 @@ def prop_cli(case, rec):
         outs.append(p.stdout.decode('utf-8', 'replace').split('\n')[:-1])
         if p.returncode != 0:
             raise Violation('crash:cli', p.stderr.decode('utf-8', 'replace')[-600:], case)
-    rec.case({'n': n, 'cli_words': outs[0][:5], 'flags': flags}, len(lang) >= 4, ['cli_random_walk'] + (['cli_all_lower'] if sc else []), key=[m, n, sb, sc, 'cli'])
+    rec.case({'n': n, 'cli_words': outs[0][:5], 'flags': flags + sflags}, len(lang) >= 4, ['cli_random_walk'] + (['cli_all_lower'] if sc else []) + (['cli_named_session'] if sname else []), key=[m, n, sb, sc, 'cli', sname])
     if len(outs[0]) != n:
         raise Violation('limit', f'CLI random_walk -n {n}: {len(outs[0])} lines on stdout', case)
-    if outs[0] != outs[1]:
-        raise Violation('random_walk_not_reproducible', f'two CLI random_walk runs differ: {outs[0][:5]} vs {outs[1][:5]}', case)
+    if outs[0] != outs[1] or outs[0] != outs[2]:
+        raise Violation('random_walk_not_reproducible', f'CLI random_walk runs {flags + sflags} in different processes (PYTHONHASHSEED 1 / 77 / unset) differ: '
+                        f'{outs[0][:5]} vs {outs[1][:5]} vs {outs[2][:5]}', case)
     bad = [w for w in outs[0] if w not in lang]
     if bad:
         raise Violation('not_in_language', f'CLI random_walk: words outside the non-Markov language: {bad[:5]}', case)
@@ -436,6 +440,10 @@ def cli_cases(draw):
     c = draw(e2e_cases())
     c['n'] = min(c['n'], 300)
     c['history'] = draw(st.sampled_from([None, 'no_save_file', 'other_ruleset', 'all_lower']))
+    if c['history'] is None:
+        c['session_name'] = draw(st.sampled_from([None, 'mine', 'side by side', 'night.run-2', 'sess\u00e9', 'default_run']))
+        c['long_options'] = draw(st.booleans())
+        c['cwd'] = draw(st.sampled_from(['tool', 'elsewhere']))
     return c
 
 
